@@ -20,6 +20,7 @@ import Tdgl.Schedule
 import Tdgl.Fields
 import Tdgl.Units
 import Tdgl.Geometry
+import Tdgl.Topology
 
 open Tdgl
 
@@ -290,6 +291,14 @@ def step (st : St) (line : String) : St × String :=
       let pts : List (Float × Float) := (List.range xa.size).map (fun i => (xa.getD i 0, ya.getD i 0))
       let T : Affine Float := ⟨f a, f bb, f c, f d, f tx, f ty⟩
       (st, b (signedArea2 (pts.map T.apply)))
+    | ["topo"], [tris] =>
+      -- connectivity from the triangle list: edges | boundary edge indices | boundary sites | #adjacent triangles per edge
+      let a := nats tris
+      let ts : List Tri := (List.range (a.size / 3)).map (fun i => (a.getD (3*i) 0, a.getD (3*i+1) 0, a.getD (3*i+2) 0))
+      let es := getEdges ts
+      let sn (l : List Nat) := " ".intercalate (l.map toString)
+      (st, sn (es.flatMap (fun e => [e.1, e.2])) ++ " | " ++ sn (boundaryEdgeIndices ts) ++ " | " ++ sn (boundarySites ts)
+        ++ " | " ++ sn (es.map (fun e => sideCount ts e)))
     | ["tri"], [coords] =>
       -- circumcentre, doubled area and the three doubled kite areas of one triangle
       let c := floats coords
